@@ -160,8 +160,8 @@ def run(repo, chk, tier):
         hn = helper.name
         hp = helper.params
         flagp = hp[1] if len(hp) > 1 else None
-        red_forms = [f'{hn}(f)', f'{hn}(f, True)', f'{hn}(f, {flagp}=True)']
-        rel_forms = [f'{hn}(f, False)', f'{hn}(f, {flagp}=False)']
+        red_forms = [f'{hn}(f)', f'{hn}(f, True)'] + ([f'{hn}(f, {flagp}=True)'] if flagp else [])
+        rel_forms = [f'{hn}(f, False)'] + ([f'{hn}(f, {flagp}=False)'] if flagp else [])
         wants += [X(f'{rel}[f] - {alpha} * {a_} + {beta} * {b2}') for a_ in red_forms for b2 in rel_forms]
         # a helper that receives the dictionary to aggregate over instead of a flag
         wants_by_dict = [X(f'{rel}[f] - {alpha} * {hn}(f, {red}) + {beta} * {hn}(f, {relat})')]
@@ -342,4 +342,26 @@ def call_site(repo, chk, fn):
         if u.args and isinstance(u.args[0], ast.DictComp) and isinstance(u.args[0].key, ast.Tuple):
             k = [ast.unparse(e) for e in u.args[0].key.elts]
             oks = k == ['row.FeatureB', 'row.FeatureA']
-    chk.expect(oks, 'C17.7b', 'R6', rk.site(ups[0]) if ups else rk.site(cs[0]), ast.unparse(ups[0]).replace('\n', ' ')[:140] if ups else f'{rname}.update(mirrored)', 'relation scores are available for both orders of a pair', 'the relation dictionary must be symmetrised (both (a, b) and (b, a))')
+    if not oks and ups:
+        # other spellings of the mirrored pairs: .update(dict(zip(zip(df[B], df[A]), scores))) with the two name columns swapped w.r.t. the first fill
+        def _resolve(e, depth=0):
+            if isinstance(e, ast.Name) and depth < 4:
+                ds = [n.value for n in own_nodes(rk.node) if isinstance(n, ast.Assign) and len(n.targets) == 1 and isinstance(n.targets[0], ast.Name) and n.targets[0].id == e.id]
+                if ds:
+                    return _resolve(ds[-1], depth + 1)
+            return e
+        for u in ups:
+            a0 = _resolve(u.args[0]) if u.args else None
+            txt = ast.unparse(a0) if a0 is not None else ''
+            cols = [c.value if isinstance(c, ast.Constant) else getattr(c, 'attr', None) for x in ast.walk(a0) if a0 is not None for c in ([x.slice] if isinstance(x, ast.Subscript) else ([x] if isinstance(x, ast.Attribute) else []))] if a0 is not None else []
+            # the argument itself, or the `pairs` it zips (bound just before), names FeatureB before FeatureA
+            prev = [n for n in own_nodes(rk.node) if isinstance(n, ast.Assign) and n.lineno <= u.lineno and any(isinstance(t, ast.Name) and t.id == 'pairs' for t in n.targets)]
+            ptxt = ast.unparse(prev[-1].value) if prev else ''
+            for t_ in (txt, ptxt):
+                if 'FeatureB' in t_ and 'FeatureA' in t_ and t_.index('FeatureB') < t_.index('FeatureA') and 'zip' in t_:
+                    oks = True
+        if not oks:
+            chk.unsure('C17.7b', 'R6', rk.site(ups[0]), ast.unparse(ups[0]).replace('\n', ' ')[:140], 'the relation dictionary is extended, but not in a form recognised as the mirrored pairs (b, a)')
+            ups = None
+    if ups is not None:
+      chk.expect(oks, 'C17.7b', 'R6', rk.site(ups[0]) if ups else rk.site(cs[0]), ast.unparse(ups[0]).replace('\n', ' ')[:140] if ups else f'{rname}.update(mirrored)', 'relation scores are available for both orders of a pair', 'the relation dictionary must be symmetrised (both (a, b) and (b, a))')
